@@ -2,6 +2,7 @@
 
 from __future__ import annotations
 
+import contextlib
 import copy
 import os
 import random
@@ -24,6 +25,8 @@ def gen_sched(rng, preemptive_ok: bool = True) -> dict:
         "pct_d": rng.randint(1, 4),
         "procs": (rng.random() < 0.15) if pol in ("fifo", "lifo", "random") else False,
         "sim_seed": rng.randrange(2**31),
+        # line-level pre-emption inside named repository functions (sys.monitoring), pre-emptive policies only
+        "lines": (rng.random() < 0.5) if pol in ("preempt", "pct") else False,
     }
 
 
@@ -256,10 +259,13 @@ def run_observation(scn: dict, with_dask: bool, *, simulate: bool = True, forced
                 forced=forced,
                 procs=sc.get("procs", False),
             )
-            with rs.active(), sim.running():
+            ls = seams.LineSeam() if sc.get("lines") else contextlib.nullcontext()
+            with rs.active(), (ls.active() if sc.get("lines") else ls), sim.running():
                 tree = pyxel.run_mode(mode=mode, detector=det, pipeline=pipe, with_inherited_coords=True)
                 rec["lazy_tree"] = tree
                 tree = tree.compute()
+            if sc.get("lines"):
+                rec["line_hits"] = ls.hits
         else:
             tree = pyxel.run_mode(mode=mode, detector=det, pipeline=pipe, with_inherited_coords=True)
             if with_dask:
